@@ -8,7 +8,8 @@
 //!        "stdin"|"stdout"|"stderr": null|"inherit"|"null"|"pipe"|{"fd":N},
 //!        "pre_exec":[0|errno|-1 ...]      (0 = Ok, errno>0 = Err(Os{code}), -1 = Err(Uncategorized))
 //!        "open":[{"fd":N,"path":"..","write":bool}]   descriptors to prepare for Stdio::RawFd
-//!        "wait":true|false, "feed":"text"|null  (bytes written to a stdin pipe before waiting)}
+//!        "wait":true|false|"try" (Child::wait / none / Child::try_wait loop),
+//!        "feed":"text"|null  (bytes written to a stdin pipe before waiting)}
 //!
 //! Markers for the tracer are writes to descriptor -1 (EBADF, no effect):
 //!   MARK:spawn:begin                  just before `Command::spawn`
@@ -216,8 +217,23 @@ fn main() {
                 use tiny_std::io::Write as _;
                 let _ = p.write(feed.as_bytes());
             }
-            if plan["wait"].as_bool().unwrap_or(true) {
-                match child.wait() {
+            let try_mode = plan["wait"].as_str() == Some("try");
+            if try_mode || plan["wait"].as_bool().unwrap_or(true) {
+                let waited = if try_mode {
+                    // Child::try_wait until the child is gone
+                    loop {
+                        match child.try_wait() {
+                            Ok(Some(st)) => break Ok(st),
+                            Ok(None) => unsafe {
+                                libc::usleep(500);
+                            },
+                            Err(e) => break Err(e),
+                        }
+                    }
+                } else {
+                    child.wait()
+                };
+                match waited {
                     Ok(st) => ev(json!({"ev":"waited","res":"ok","status":st})),
                     Err(e) => {
                         let code = if let tiny_std::Error::Os { code, .. } = e { json!(code.raw()) } else { Value::Null };
